@@ -4,7 +4,7 @@ From Coq Require Import String.
 From Coq Require Import ZArith List Bool.
 From Cose Require Import Lib.Base Lib.GenTypes Model.GoVal Model.Key Model.KeyProofs Model.MsgLogic Model.MsgLogicProofs
      Model.Dispatch Model.DispatchProofs Model.Equiv Spec.RFC9053
-     Lib.Cbor Lib.CborProofs Model.CborGo Model.Wire Model.ValueRoundTrip Model.Text Model.TextProofs Model.KeyRoundTrip Lib.GoSem Model.HdrSem Gen.FuncsGen Gen.KeyFuncsGen Model.KeyFuncsProofs.
+     Lib.Cbor Lib.CborProofs Model.CborGo Model.Wire Model.ValueRoundTrip Model.Text Model.TextProofs Model.KeyRoundTrip Lib.GoSem Model.HdrSem Gen.FuncsGen Gen.KeyFuncsGen Model.KeyFuncsProofs Model.Msg Gen.LookupGen Model.LookupProofs.
 Import ListNotations.
 Open Scope Z_scope.
 
@@ -120,3 +120,11 @@ Theorem C17_key_kty_kid_source_is_model : forall k k_nil, (k_nil = true -> k = [
   key_Key_Kty k k_nil = Ok (kty k) /\ key_Key_Kid k k_nil = Ok (kid k) /\ key_Key_BaseIV k k_nil = Ok (base_iv k).
 Proof. exact (fun k k_nil H => conj (gen_key_kty k k_nil H) (conj (gen_key_kid k k_nil) (gen_key_base_iv k k_nil))). Qed.
 Print Assumptions C17_key_kty_kid_source_is_model.
+
+(* ---- the source of the lookups by key id (Verifiers.Lookup, Signers.Lookup, KeySet.Lookup: bodies regenerated on every
+   run, T15): the first entry whose key id is byte-for-byte the requested one, or none *)
+Theorem C17_lookup_source_is_model : forall (vs : list sigprim) (ks : list cosemap) id,
+  key_Verifiers_Lookup vs id = Ok (lookup_prim vs id) /\ key_Signers_Lookup vs id = Ok (lookup_prim vs id)
+  /\ key_KeySet_Lookup ks id = Ok (lookup_kid ks id).
+Proof. exact (fun vs ks id => conj (gen_verifiers_lookup vs id) (conj (gen_signers_lookup vs id) (gen_keyset_lookup ks id))). Qed.
+Print Assumptions C17_lookup_source_is_model.
